@@ -306,6 +306,19 @@ pub fn scenarios() -> Vec<Scenario> {
         bp_addrs: vec![0x0556, 0x056B, tl["ret1"], tl["done"], 0x0038],
         weight: 52,
     });
+    // tape whose second block is cut off inside its first buffer-load: every driving and delivery must fail alike
+    let cut = tap_block(0xFF, &d1).len() + 2 + 57;
+    v.push(Scenario {
+        name: "tape-trunc",
+        m128: false,
+        frames: (5, 12),
+        sna: Some(sna48(&tcode, 0x8000, 0x8000, 0xBD00, 0x5C3A, 11)),
+        tap: Some(tap[..cut].to_vec()),
+        fastload: true,
+        events: vec![],
+        bp_addrs: vec![0x0556, 0x056B, tl["ret1"]],
+        weight: 26,
+    });
     // tape: real-time load of the first block through the ROM's edge loop
     let (scode, sl) = tape_program(40, None);
     v.push(Scenario {
